@@ -2,12 +2,13 @@
    Only statements, each closed by [exact]; Print Assumptions beneath.
 
    The model (Aws/AwsSignModel.v) INTERPRETS the asprintf format strings, argument lists, strftime
-   formats and buffer sizes, the time() error value, the SHA256_Buf argument expressions and the
-   HMAC chain regenerated from aws/aws_sign.c on every run (Gen/Repo_aws.v), so these theorems are
-   re-proved against the layouts the source has now.  Written by hand in the model: the order of the
-   steps, the three hexify(x, y, 32) calls, and the meaning of the accepted length expressions
-   (strlen(x) = the string x; a declared 32-byte array = an HMAC output; `body ? bodylen : 0` = the
-   body, or nothing when body is NULL).  The spec (Aws/SigV4Spec.v, Aws/AwsDoc.v) is the published
+   formats and buffer sizes, the time() error value, the SHA256_Buf / hexify / strdup argument lists
+   and the HMAC chain regenerated from aws/aws_sign.c on every run (Gen/Repo_aws.v; the translator
+   reads every statement of the five functions and refuses a source it cannot read), so these
+   theorems are re-proved against the layouts the source has now.  Written by hand in the model: the
+   order of the steps (the translator compares it), the parameter names, and the meaning of the
+   accepted length expressions (strlen(x) = the string x; a declared 32-byte array = an HMAC output;
+   `body ? bodylen : 0` = the body, or nothing when body is NULL).  The spec (Aws/SigV4Spec.v, Aws/AwsDoc.v) is the published
    SigV4 algorithm - including "an empty absolute path is canonicalised to '/'" - applied to the
    request the header file documents.  The theorems hold for ANY hash functions whose outputs are
    bytes (sha256, hmac are universally quantified; C01 is about the repository's own).
